@@ -30,12 +30,12 @@ Definition dp_dump_at (f : list N) (base : N) : res (list (res index_dump)) :=
                     match run_n n f (dp_entry_store_p d (ix_store ih)) with
                     | Err e => Err e
                     | Ok (ly, data) =>
-                        if 10000000 <? ix_count ih then Err EFormat else
+                        (* the dump shows the first 20000 entries of an index (a damaged count may be huge) *)
                         Ok (ly, map (fun j =>
                               match index_get ih ly data j with
                               | None => None
                               | Some e => Some (read_entry store ly e)
-                              end) (nseq 0 (N.to_nat (ix_count ih))))
+                              end) (nseq 0 (N.to_nat (N.min (ix_count ih) 20000))))
                     end |}
         end) (nseq 0 (N.to_nat (dh_index_count (dp_dh d)))))
   end.
